@@ -66,6 +66,17 @@ func main() {
 			fmt.Printf("%-80s %-8s props=%v\n", shortUnit(k), st, ct.Props)
 		}
 		return
+	case "sweep":
+		if *unitFilter != "" {
+			eng.sweepDebug(*unitFilter)
+			return
+		}
+		for _, o := range eng.sweepObligations("C13") {
+			if o.Status != "proved" {
+				fmt.Printf("%-8s %-70s %s  [%s]\n", o.Status, o.Name, o.Output, o.Pos)
+			}
+		}
+		return
 	case "check", "dump":
 	default:
 		fmt.Println("unknown command", cmd)
@@ -188,6 +199,15 @@ func main() {
 	for _, j := range jobs {
 		allObls = append(allObls, j.o)
 	}
+	if (*prop == "C13" || *prop == "C12") && *unitFilter == "" && *oblFilter == "" {
+		sw := eng.sweepObligations(*prop)
+		for _, o := range sw {
+			if o.Status == "proved" {
+				st.bySolver["syntactic frame check"]++
+			}
+		}
+		allObls = append(allObls, sw...)
+	}
 	rep := buildReport(eng, *prop, *tier, units, allObls, bindErrs, st, *verif)
 	rep.LoadS, rep.GenS, rep.SolveS = loadSecs, genSecs, solveSecs
 	rep.WallS = time.Since(start).Seconds()
@@ -199,7 +219,6 @@ func main() {
 	code := rep.finish(*noEvidence || *prop == "")
 	os.Exit(code)
 }
-
 
 func orDefault(s, d string) string {
 	if s == "" {
@@ -437,17 +456,17 @@ func (r *Report) finish(noEvidence bool) int {
 			"property_id": r.prop, "tier": r.tier, "seed": seed, "level": "proof",
 			"coverage": map[string]interface{}{
 				"obligations": nObl, "discharged": nProved,
-				"checker_cmd":             fmt.Sprintf("/verif/bin/govc check -prop %s -tier %s", r.prop, r.tier),
-				"trusted_base":            trusted,
+				"checker_cmd":              fmt.Sprintf("/verif/bin/govc check -prop %s -tier %s", r.prop, r.tier),
+				"trusted_base":             trusted,
 				"functions_under_contract": funcs,
-				"obligation_kinds":        kinds,
-				"discharged_by_backend":   r.st.bySolver,
-				"solver_seconds":          solverSecs,
-				"vacuity_covers":          map[string]int{"total": nCover, "satisfiable": nCoverOK},
-				"samples":                 samples,
-				"known_findings_hit":      knownHit,
-				"bounded_standins":        boundedStandins[r.prop],
-				"explanation":             "every obligation is generated from the current /repo source (go/ssa) and the contracts in zz_contracts_verif.go; discharged = solver answered unsat for the negated obligation",
+				"obligation_kinds":         kinds,
+				"discharged_by_backend":    r.st.bySolver,
+				"solver_seconds":           solverSecs,
+				"vacuity_covers":           map[string]int{"total": nCover, "satisfiable": nCoverOK},
+				"samples":                  samples,
+				"known_findings_hit":       knownHit,
+				"bounded_standins":         boundedStandins[r.prop],
+				"explanation":              "every obligation is generated from the current /repo source (go/ssa) and the contracts in zz_contracts_verif.go; discharged = solver answered unsat for the negated obligation",
 			},
 			"assumptions": assumptions,
 			"wall_s":      round3(r.WallS),
